@@ -51,6 +51,7 @@ var props = map[string]propConf{
 	"C08": {Engine: "E1", QuickBudget: 12, ThorBudget: 600},
 	"C10": {Engine: "E1+E2", QuickBudget: 15, ThorBudget: 600},
 	"C11": {Engine: "E1", QuickBudget: 12, ThorBudget: 600},
+	"C18": {Engine: "E3", Bubble: true, QuickBudget: 15, ThorBudget: 600},
 	"C17": {Engine: "E4", QuickBudget: 15, ThorBudget: 600},
 	"C16": {Engine: "E1", QuickBudget: 12, ThorBudget: 600},
 	"C14": {Engine: "E1", QuickBudget: 12, ThorBudget: 600},
@@ -184,7 +185,7 @@ func (b *built) cleanup() { os.RemoveAll(b.scratch) }
 func workerCmd(b *built, pc propConf, args ...string) *exec.Cmd {
 	var cmd *exec.Cmd
 	if pc.Bubble {
-		cmd = exec.Command(b.bin, append([]string{"-test.run", "^TestSim$", "-test.timeout", "0", "-test.v=false", "-args"}, args...)...)
+		cmd = exec.Command(b.bin, append([]string{"-test.run", "^TestSim$", "-test.timeout", "0"}, args...)...)
 	} else {
 		cmd = exec.Command(b.bin, args...)
 	}
